@@ -80,6 +80,7 @@ type simCfg struct {
 	Inline map[string]bool // in-package functions to inline; if nil, all not otherwise listed
 	NoInlineDefault bool
 	// Model, if set, is asked first.
+	Keep  map[string]bool // events whose pointer arguments are not havocked
 	Model func(c *simClient, x *Exec, st *State, fr *Frame, site ssa.CallInstruction, name string, callee *ssa.Function, fnTerm *Term, args []*Term) (bool, []CallOut)
 	OnStoreHook func(c *simClient, x *Exec, st *State, fr *Frame, pos token.Pos, addr, val *Term)
 }
@@ -144,12 +145,18 @@ func (c *simClient) Call(x *Exec, st *State, fr *Frame, site ssa.CallInstruction
 		if c.cfg.Inline[name] {
 			return false, nil
 		}
-		for _, a := range args {
-			if a.Op == "alloc" || a.Op == "field" || a.Op == "index" {
-				x.havoc(st, a, mk("site", fr.ctx+"/"+siteID(fr, site), nil, x.curMark()))
+		if !c.cfg.Keep[name] {
+			for _, a := range args {
+				if a.Op == "alloc" || a.Op == "field" || a.Op == "index" {
+					x.havoc(st, a, mk("site", fr.ctx+"/"+siteID(fr, site), nil, x.curMark()))
+				}
 			}
 		}
-		return true, []CallOut{{St: st, Val: x.opaqueResult(fr, site, callee, fnTerm, args)}}
+		res := x.opaqueResult(fr, site, callee, fnTerm, args)
+		if res != nil {
+			c.g(st).events = append(c.g(st).events, mk("evret", name, nil, res))
+		}
+		return true, []CallOut{{St: st, Val: res}}
 	}
 	if c.cfg.Pure[name] {
 		as := append([]*Term{}, args...)
@@ -188,6 +195,14 @@ func (c *simClient) OnStore(x *Exec, st *State, fr *Frame, pos token.Pos, addr, 
 	if c.cfg.OnStoreHook != nil {
 		c.cfg.OnStoreHook(c, x, st, fr, pos, addr, val)
 	}
+}
+
+func (c *simClient) OnLoopLeave(x *Exec, st *State, fr *Frame, cur *Term, fromHeader bool) {
+	k := "break"
+	if fromHeader {
+		k = "done"
+	}
+	c.Samples = append(c.Samples, simSample{Kind: k, Loop: cur.key, St: st.clone(), Fr: fr, Events: append([]*Term(nil), c.g(st).events...)})
 }
 
 func (c *simClient) OnBackEdge(x *Exec, st *State, fr *Frame, cur *Term) {
@@ -339,6 +354,24 @@ func implied(st *State, f *Formula) (bool, string) {
 	if len(keys) > 16 {
 		fatalf("decision table with %d atoms", len(keys))
 	}
+	// sibling order atoms decided by the path take part in the theory check
+	for _, k := range keys {
+		t := set[k]
+		if t.Op != "eq" && t.Op != "lt" {
+			continue
+		}
+		a, b := t.Args[0], t.Args[1]
+		for _, sib := range []*Term{tLtRaw(a, b), tLtRaw(b, a), tEq(a, b)} {
+			if _, have := set[sib.key]; !have && sib.Op != "const" && st.truth(sib) >= 0 {
+				set[sib.key] = sib
+			}
+		}
+	}
+	keys = keys[:0]
+	for k := range set {
+		keys = append(keys, k)
+	}
+	sort.Strings(keys)
 	fixed := map[string]bool{}
 	var free []string
 	for _, k := range keys {
